@@ -167,6 +167,33 @@ func init() {
 		}
 		return nil
 	}
+	m[vhPath+"Isolated"] = func(fr *frame, a []Value) Value {
+		w := fr.w
+		if w.iso != nil {
+			return w.call(fr, a[0], nil) // nested: the outer recorder is already watching
+		}
+		w.iso = w.beginIso(a[0])
+		w.E.mu.Lock()
+		if w.iso.cells > w.E.res.IsoCells {
+			w.E.res.IsoCells = w.iso.cells
+		}
+		w.E.res.IsoCalls++
+		w.E.mu.Unlock()
+		defer func() { w.iso = nil }()
+		return w.call(fr, a[0], nil)
+	}
+	m[vhPath+"IsolatedProbe"] = func(fr *frame, a []Value) Value {
+		w := fr.w
+		if w.iso != nil {
+			panic("vh.IsolatedProbe inside vh.Isolated")
+		}
+		st := w.beginIso(a[0])
+		st.probe = true
+		w.iso = st
+		defer func() { w.iso = nil }()
+		w.call(fr, a[0], nil)
+		return w.T.BoolC(st.probed)
+	}
 	m[vhPath+"MapOrderAny"] = func(fr *frame, a []Value) Value { fr.w.mapOrderAny = true; return nil }
 	m[vhPath+"AllocCap"] = func(fr *frame, a []Value) Value {
 		fr.w.allocCap = int64(fr.w.constIntArg(a[0], "cap"))
